@@ -6,6 +6,7 @@
 (*           for the entry-wise Add and the bilinear Multiply)             *)
 (*   rotto   all ordered pairs of the 26 lattice directions {-1,0,1}^3\{0} *)
 (*           (parallel and antiparallel pairs included)                    *)
+(*   rotnear for each direction a: b at 1e-2 .. 1e-9 rad from a and from -a*)
 (*   rotax   rotations about (non-unit) lattice axes by 90/120/180 degrees *)
 (*   rotq    rotations about a coordinate axis by an angle with rational   *)
 (*           sine and cosine (Pythagorean triples), vectors chosen so that *)
@@ -28,6 +29,11 @@ BasisCases == {[k |-> "mat2", a |-> Basis4(r1, c1), ad |-> 1, b |-> Basis4(r2, c
                   r1 \in 1..4, c1 \in 1..4, r2 \in 1..4, c2 \in 1..4}
 
 RotToCases == {[k |-> "rotto", a |-> a, b |-> b] : a \in Dirs, b \in Dirs}
+
+\* b at the small angle en * 10^-ek from a (anti = 0) or from -a (anti = 1): the neighbourhoods of the
+\* special cases of RotationTo
+RotNearCases == {[k |-> "rotnear", a |-> a, en |-> n, ek |-> e, anti |-> x] :
+                    a \in Dirs, n \in {1, 3}, e \in {2, 3, 4, 6, 9}, x \in {0, 1}}
 
 \* axis (any positive multiple is the same axis), 2*cos(angle), orientation of the angle
 RotAxCases ==
@@ -69,6 +75,7 @@ MeshCases ==
 Cases ==
     (IF "basis" \in Families THEN BasisCases ELSE {})
     \cup (IF "rotto" \in Families THEN RotToCases ELSE {})
+    \cup (IF "rotnear" \in Families THEN RotNearCases ELSE {})
     \cup (IF "rotax" \in Families THEN RotAxCases ELSE {})
     \cup (IF "rotq" \in Families THEN RotQCases ELSE {})
     \cup (IF "trs" \in Families THEN TRSCases ELSE {})
